@@ -45,7 +45,8 @@ ASSUMPTIONS = [
     "the amplitude error (a vector norm) and as an 8^-k envelope anchored at max(norm error, 2 x amplitude error) of the "
     "base level for the norm error",
     "tully energy drift is bounded by the velocity-Verlet shadow Hamiltonian, not by a fixed 1e-5: "
-    "10 (1 + accepted hops) dt^2 max_t | v^2 V''/12 - F^2/(24 m K) |",
+    "10 (1 + accepted hops) dt^2 max_t ( |v^2 V''|/12 + F^2/(12 m K) )  (V'' and F from finite differences of the "
+    "model's own energy)",
 ]
 REQUIRED_MONITORS = ["propagate_returns_seen", "r3_comparisons", "ladder_levels", "g_frames_read", "hop_draws",
                      "rescale_accepted", "rescale_rejected", "rescale_tie_trials", "after_hops_accepted",
@@ -62,7 +63,8 @@ FLOOR_A = 2e-12          # round-off floor of |u - u_R3| (product of <= 5120 uni
 FLOOR_N = 1e-13          # round-off floor of |sum|c|^2 - 1|
 PHI_MAX_ABS = 0.5        # absolute RK4 bound asserted for per-sub-step phase advance below this
 PHI_LADDER = 0.4         # ladder base is refined until the phase advance is below this
-NORM_ABS = 1e-3          # DESIGN: |norm-1| <= 1e-3 whenever the per-sub-step phase advance <= 0.3
+NORM_ABS = 1e-3          # |norm-1| <= 1e-3 whenever the per-sub-step phase advance <= PHI_NORM_ABS
+PHI_NORM_ABS = 0.2       # (DESIGN said 0.3: RK4 loses nsub phi^6/72 = 8e-4 there for nsub = 80, only 1.2x inside)
 ALPHA_STAT = 1e-12       # per-test alarm level of the binomial test
 Z_ALARM = 7.1307         # its two-sided sigma equivalent
 REL_E = 1e-10            # energy conservation of the rescaling, relative
@@ -96,7 +98,7 @@ def gen_cases(tier, seed):
     n_h = 8 if q else 80
     for k in range(n_h):
         cases.append({"kind": "hopfreq", "ns": int(2 + k % 7), "configs": 8, "reps": 500 if q else 1000,
-                      "calls": 25 if q else 50, "dt": float(g.uniform(0.05, 0.5)),
+                      "calls": 60 if q else 100, "dt": float(g.uniform(0.05, 0.5)),
                       "sub": [None, 8, 16][k % 3], "seed": s()})
     # (a) propagation
     n_p = 160 if q else 4000
@@ -271,19 +273,37 @@ def _T(a):
 
 
 def _phis(E0, E1, D0, D1, dt, nsub, hbar):
-    """per-sub-step phase advances of one row: coupling part and energy part"""
+    """dimensionless per-sub-step sizes of one row (h = dt/nsub):
+    b0 = h max|D|_2, psi = h^2 |dD/dt|_2, g = h spread(E)/hbar, gam = h^2 |d spread/dt|/hbar"""
     h = dt / nsub
-    phiD = h * max(np.linalg.norm(D0, 2), np.linalg.norm(D1, 2))
-    de = E1 - E0
-    phiG = h * (max(np.ptp(E0), np.ptp(E1)) + np.ptp(de)) / hbar
-    return phiD, phiG
+    b0 = h * max(np.linalg.norm(D0, 2), np.linalg.norm(D1, 2))
+    psi = h * np.linalg.norm(D1 - D0, 2) / nsub
+    g = h * max(np.ptp(E0), np.ptp(E1)) / hbar
+    gam = h * np.ptp(E1 - E0) / hbar / nsub
+    return b0, psi, g, gam
 
 
-def _amp_bound(nsub, phiD, phiG):
-    """global RK4 error bound for the interaction-picture equation da/dt = -e^{-i theta} D e^{i theta} a:
-    the right-hand side is O(|D|) and every time derivative brings a factor (|D| + gap/hbar), so the local
-    error is <= C (h|D|) (h|D| + h gap/hbar)^4 and the global one nsub times that."""
-    return C_AMP * nsub * phiD * (phiD + phiG) ** 4
+def _amp_bound(nsub, ph):
+    """global RK4 error bound for the interaction-picture equation da/dt = B(t) a, B = -e^{-i theta} D e^{i theta}.
+    With b_k >= h^{k+1} |d^k B/dt^k| (D linear in t, theta quadratic in t):
+        b1 = psi + g b0,  b2 = 2 g psi + (g^2 + gam) b0,  b3 = 3 g^2 psi + g^3 b0 + 3 gam (psi + g b0),
+        b4 = 4 g^3 psi + g^4 b0 + 6 gam g (psi + g b0) + 3 gam^2 b0,
+    the order-5 elementary differentials of a linear non-autonomous system are the products
+        b0^5, b0^3 b1, b0 b1^2, b0^2 b2, b1 b2, b0 b3, b4
+    (the stage phases of the code, frozen at the start / middle of the sub-step, add terms gam b0^2 (b0 + g) of
+    the same weight, which b0^2 b2 and b0 b3 dominate).  Local error <= C_AMP x their sum, global = nsub x local."""
+    b0, psi, g, gam = ph
+    b1 = psi + g * b0
+    b2 = 2 * g * psi + (g * g + gam) * b0
+    b3 = 3 * g * g * psi + g ** 3 * b0 + 3 * gam * (psi + g * b0)
+    b4 = 4 * g ** 3 * psi + g ** 4 * b0 + 6 * gam * g * (psi + g * b0) + 3 * gam * gam * b0
+    local = b0 ** 5 + b0 ** 3 * b1 + b0 * b1 ** 2 + b0 ** 2 * b2 + b1 * b2 + b0 * b3 + b4
+    return C_AMP * nsub * local
+
+
+def _phase(ph):
+    """per-sub-step phase advance: coupling part + energy part"""
+    return ph[0] + ph[2]
 
 
 class _Acc:
@@ -399,8 +419,10 @@ def _check_g(acc, dyn, ncalls=1, label="prop"):
         elif np.any(g[np.arange(B), act] != 0.0):
             bad = ("g-diagonal-zero", float(np.abs(g[np.arange(B), act]).max()))
         if np.isfinite(g).all():
-            acc.margin("g_max", max(float(g.max()), 0.0), 1.0 + 1e-12)
-            acc.margin("g_rowsum", float(g.sum(axis=1).max()), 1.0 + 1e-12)
+            # the bound 1 is attained (renormalised rows): the margin is the excess over it against the 1e-12 allowance
+            acc.margin("g_max_excess_over_1", max(float(g.max()) - 1.0, 0.0), 1e-12)
+            acc.margin("g_rowsum_excess_over_1", max(float(g.sum(axis=1).max()) - 1.0, 0.0), 1e-12)
+            acc.margin("g_min_below_0", max(-float(g.min()), 0.0), 1e-300)
             if float(g.sum(axis=1).max()) > 1.0 - 1e-9:
                 acc.count("g_rows_renormalised", int((g.sum(axis=1) > 1.0 - 1e-9).sum()))
         hop = t >= 0
@@ -442,35 +464,37 @@ def _run_prop(case):
     obs_rows = []
     phimax = 0.0
     for b in range(B):
-        phiD, phiG = _phis(inp["E0"][b], inp["E1"][b], D0eff[b], inp["D1"][b], dt, nsub, hbar)
-        phi = phiD + phiG
+        ph = _phis(inp["E0"][b], inp["E1"][b], D0eff[b], inp["D1"][b], dt, nsub, hbar)
+        phi = _phase(ph)
         phimax = max(phimax, phi)
         ref = tdse.propagate(inp["u0"][b], inp["E0"][b], inp["E1"][b], D0eff[b], inp["D1"][b], dt, 64 * nsub, hbar=hbar)
         A = float(np.linalg.norm(u[b] - ref))
         N = abs(float(pop[b].sum()) - 1.0)
         acc.count("r3_comparisons")
-        bd = _amp_bound(nsub, phiD, phiG)
+        bd = _amp_bound(nsub, ph)
+        wit = {"row": b, "nsub": nsub, "b0": ph[0], "psi": ph[1], "g": ph[2], "gam": ph[3]}
         if phi <= PHI_MAX_ABS:
             acc.count("abs_bound_rows")
             if acc.margin("amp_vs_R3", A, bd + FLOOR_A):
-                acc.violate("amplitude-vs-R3", None, row=b, err=A, bound=bd + FLOOR_A, phiD=phiD, phiG=phiG, nsub=nsub)
+                acc.violate("amplitude-vs-R3", None, err=A, bound=bd + FLOOR_A, **wit)
             if acc.margin("norm_rk4_bound", N, 2.2 * bd + FLOOR_N):
-                acc.violate("norm-rk4-bound", None, row=b, err=N, bound=2.2 * bd + FLOOR_N, phiD=phiD, phiG=phiG, nsub=nsub)
-        if phi <= 0.3:
+                acc.violate("norm-rk4-bound", None, err=N, bound=2.2 * bd + FLOOR_N, **wit)
+        if phi <= PHI_NORM_ABS:
             acc.count("norm_1e-3_rows")
-            if acc.margin("norm_1e-3_at_phase_0.3", N, NORM_ABS):
+            if acc.margin("norm_1e-3_at_phase_0.2", N, NORM_ABS):
                 acc.violate("norm-1e-3", None, row=b, err=N, phi=phi, nsub=nsub)
-        obs_rows.append({"phiD": phiD, "phiG": phiG, "amp_err": A, "norm_err": N})
+        obs_rows.append({"b0": ph[0], "psi": ph[1], "g": ph[2], "gam": ph[3], "amp_err": A, "norm_err": N,
+                         "amp_err/bound": A / (bd + FLOOR_A)})
     # (b) range clauses on the hop integral just produced
     _check_g(acc, dyn, ncalls=2)
     # ---- order ladder -------------------------------------------------------------------------------
     if case.get("ladder"):
         b = 0
-        phiD, phiG = _phis(inp["E0"][b], inp["E1"][b], D0eff[b], inp["D1"][b], dt, nsub, hbar)
+        ph = _phis(inp["E0"][b], inp["E1"][b], D0eff[b], inp["D1"][b], dt, nsub, hbar)
         n0 = nsub
-        while (phiD + phiG) * nsub / n0 > PHI_LADDER and n0 < 640:
+        while _phase(ph) * nsub / n0 > PHI_LADDER and n0 < 640:
             n0 *= 2
-        if (phiD + phiG) * nsub / n0 <= PHI_LADDER:
+        if _phase(ph) * nsub / n0 <= PHI_LADDER:
             one = {k: v[b:b + 1] for k, v in inp.items()}
             ref = tdse.propagate(inp["u0"][b], inp["E0"][b], inp["E1"][b], D0eff[b], inp["D1"][b], dt, 64 * n0, hbar=hbar)
             As, Ns = [], []
@@ -485,7 +509,7 @@ def _run_prop(case):
                 if As[k - 1] > 8.0 * FLOOR_A:
                     acc.count("amp_order_ratios_judged")
                     if acc.margin("amp_order_(A2n/An)/(1/8)", As[k] / As[k - 1], 1.0 / 8.0) and As[k] > FLOOR_A:
-                        acc.violate("amplitude-order", None, n0=n0, level=k, errs=As, phiD=phiD, phiG=phiG)
+                        acc.violate("amplitude-order", None, n0=n0, level=k, errs=As, phase_at_nsub=_phase(ph), nsub=nsub)
                 env = anchor / 8.0 ** k
                 if env > FLOOR_N:
                     acc.count("norm_envelope_levels_judged")
@@ -594,7 +618,7 @@ def _fsum(a):
     return math.fsum(np.asarray(a, float).ravel().tolist())
 
 
-def _rescale_oracle(acc, v0, v1, ok, d_eff, m, minv, dE, K, row, tag, extra):
+def _rescale_oracle(acc, v0, v1, ok, d_eff, m, minv, dE, K, row, tag, extra, check_others=True):
     """judge one _rescale_velocity_along_nac outcome on row `row`.
     v0/v1 [nmol,molsize,3] before/after, d_eff [molsize,3] the coupling vector in the direction used (its sign is
     immaterial), m/minv [molsize]."""
@@ -611,7 +635,7 @@ def _rescale_oracle(acc, v0, v1, ok, d_eff, m, minv, dE, K, row, tag, extra):
     tie = bool(np.sum(vb * d_eff) == 0.0 and vd == 0.0)
     mech = MECH_TIE if tie else None
     others = [r for r in range(v0.shape[0]) if r != row]
-    if others and not np.array_equal(v0[others].view(np.int64), v1[others].view(np.int64)):
+    if check_others and others and not np.array_equal(v0[others].view(np.int64), v1[others].view(np.int64)):
         acc.violate("rescale-other-rows-untouched", mech, where=tag, row=row, **extra)
     ke0 = 0.5 * K * _fsum(m[:, None] * vb * vb)
     ke1 = 0.5 * K * _fsum(m[:, None] * va * va)
@@ -641,7 +665,9 @@ def _rescale_oracle(acc, v0, v1, ok, d_eff, m, minv, dE, K, row, tag, extra):
         if acc.margin("rescale_parallel", perp, tol_p):
             acc.violate("rescale-dp-parallel-to-d", mech, perp=perp, tol=tol_p, **wit)
         tol_a = 1e-10 * abs(small) + 64 * EPS * (abs(vd) / D2 + pn / dn) + 1e-300
-        err_s = min(abs(a_obs - small), abs(a_obs + small)) if tie else abs(a_obs - small)
+        # at (or within round-off of) the tie both roots have the same modulus: either is "the smaller"
+        same_mod = tie or abs(abs(small) - abs(large)) <= 1e-9 * abs(large)
+        err_s = min(abs(a_obs - small), abs(a_obs - large)) if same_mod else abs(a_obs - small)
         if acc.margin("rescale_smaller_root", err_s, tol_a):
             acc.violate("rescale-smaller-root", mech, alpha_observed=a_obs, alpha_small=small, alpha_large=large, **wit)
         return "accepted"
@@ -781,13 +807,14 @@ def _after_inputs(case, attempt):
     a0 = int(act[0])
     if sc in ("accepted", "frustrated", "at-rest"):
         tgt = int((a0 + 1 + g0.integers(0, ns - 1)) % ns)
-        # weak population on the active state, strong on the target, large coupling between them
+        # strong population on the active state, weaker on the target, large coupling: population flows out of it
         mod = np.full(ns, 0.05)
-        mod[a0], mod[tgt] = 0.3, 0.9
+        mod[a0], mod[tgt] = 0.9, 0.3
         ph = g.uniform(-math.pi, math.pi, ns)
         u = mod * np.exp(1j * ph)
         u0[0] = u / np.linalg.norm(u)
-        big = dlim if regime in ("adaptive-nospike", "fixed") else float(g0.uniform(10.0, 100.0))
+        # (attempt-dependent: the direction of the population flow depends on the rotation angle |D| dt)
+        big = dlim * float(g.uniform(0.3, 1.0)) if regime in ("adaptive-nospike", "fixed") else float(g.uniform(10.0, 100.0))
         s = big * float(g.choice([-1.0, 1.0]))
         for D in (D0, D1):
             D[0] *= 0.05
@@ -795,7 +822,9 @@ def _after_inputs(case, attempt):
         ke0 = 0.5 * K * float(np.sum(m[0][:, None] * v[0] ** 2))
         gap = float(10 ** g0.uniform(-3, 0.5))
         if sc == "frustrated":
-            E1[0, tgt] = E1[0, a0] + ke0 * float(g0.uniform(2.0, 30.0)) + 1e-3
+            # upward gap several times the kinetic energy (velocities scaled down rather than the gap blown up)
+            E1[0, tgt] = E1[0, a0] + gap
+            v[0] *= math.sqrt(gap / float(g0.uniform(2.0, 30.0)) / ke0)
         elif sc == "at-rest":
             v[0] = 0.0
             E1[0, tgt] = E1[0, a0] - gap
@@ -954,7 +983,8 @@ def _run_after(case):
                 if not _beq(expect, pf):
                     acc.violate("relabel-amplitudes-follow-their-state", mech, row=b, planned=p,
                                 swap_to=None if res["swap"] is None else res["swap"][b].tolist())
-            acc.margin("relabel_norm_change", abs(float(popf.sum() - popm.sum())), 1e-14)
+                else:
+                    acc.margin("relabel_norm_change", abs(float(popf.sum() - popm.sum())), 1e-14)
         exp_act[b] = p[int(mid["act"][b])]
         triv = [e for e in log if e[0] == b and e[4] == "Trivial crossing"]
         if exp_act[b] != mid["act"][b]:
@@ -976,7 +1006,7 @@ def _run_after(case):
         if fr != int(exp_act[b]):
             acc.violate("hop-starts-from-active-state", None, row=b, logged_from=fr, active=int(exp_act[b]))
         out = _rescale_oracle(acc, mid["vel"], fin["vel"], ok, d_eff, inp["m"][b], 1.0 / inp["m"][b], dE, K, b, "after",
-                              {"scenario": sc, "regime": regime})
+                              {"scenario": sc, "regime": regime}, check_others=False)
         tie = bool(np.sum(mid["vel"][b] * d_eff) == 0.0)
         mech = MECH_TIE if tie else None
         if ok:
@@ -1035,8 +1065,7 @@ def _run_after(case):
             n1, n2 = int(res["nsub"]), int(ctrl["nsub"])
             bd = 0.0
             for n in (n1, n2):
-                pD, pG = _phis(inp["E0"][b], inp["E1"][b], inp["D0"][b], inp["D1"][b], inp["dt"], n, hbar)
-                bd += _amp_bound(n, pD, pG)
+                bd += _amp_bound(n, _phis(inp["E0"][b], inp["E1"][b], inp["D0"][b], inp["D1"][b], inp["dt"], n, hbar))
             da = float(np.linalg.norm(res["mid"]["u"][b] - ctrl["mid"]["u"][b]))
             if acc.margin("isolation_rk4_level", da, bd + FLOOR_A):
                 acc.violate("row-isolation-within-rk4", None, row=b, diff=da, bound=bd + FLOOR_A, nsub=[n1, n2])
@@ -1132,6 +1161,10 @@ def _run_tully(case):
         F_app = molecule.acc[:, 0, 0].detach().numpy() * m / ACC
         F_fd = -dfd[rows, a]
         for b in range(B):
+            if abs(x[b]) < 4 * hfd:  # the models have |x| kinks at 0: no finite difference across it
+                acc.count("tully_force_checks_skipped_at_kink")
+                continue
+            acc.count("tully_force_checks")
             tolF = 1e-6 * max(1.0, abs(F_fd[b]))
             acc.margin("tully_force_is_active_gradient", abs(F_app[b] - F_fd[b]), tolF)
             if abs(F_app[b] - F_fd[b]) > tolF:
@@ -1146,7 +1179,8 @@ def _run_tully(case):
                                              "applied": float(F_app[b]), "minus_dE_fd": float(F_fd[b]),
                                              "minus_dE_model_analytic": float(-dEa[b, a[b]])})
         rec["tot"].append(ke + E[rows, a])
-        rec["delta"].append(dt * dt * np.abs(v * v * d2[rows, a] / 12.0 - F_fd ** 2 / (24.0 * m * K)))
+        # |h^2 term of the modified Hamiltonian| of either Verlet variant: (1/12, 1/24) or (1/24, 1/12) weights
+        rec["delta"].append(dt * dt * (np.abs(v * v * d2[rows, a]) / 12.0 + F_fd ** 2 / (12.0 * m * K)))
         rec["norm"].append(np.abs(dyn.populations.sum(dim=1).numpy() - 1.0))
         rec["act"].append(a)
         return r
